@@ -165,6 +165,11 @@ pub fn time_travel() {
     let nsym = sym::param(1) as usize;
     let h = build(k, nsym);
     let latest = state(&h.a.m);
+    // optionally travel somewhere else first (the starting point of a time travel must not matter)
+    if sym::any_bool() {
+        let j = sym::choose(h.points.len());
+        h.a.m.reload_until(&h.points[j].0).expect("reload_until (first hop)");
+    }
     let i = sym::choose(h.points.len());
     let (heads, recorded) = h.points[i].clone();
     sym::observe_i64(heads.len() as i64);
